@@ -36,7 +36,11 @@ impl Args {
         self.seed.wrapping_mul(1_000_003).wrapping_add(self.shard as u64)
     }
     pub fn shard_name(&self) -> String {
-        format!("s{}_{}", self.seed, self.shard)
+        // (the stage number keeps replay files of two stages of one check apart)
+        match self.get_u64("stage", 0) {
+            0 => format!("s{}_{}", self.seed, self.shard),
+            st => format!("s{}_{}_st{}", self.seed, self.shard, st),
+        }
     }
 }
 
@@ -86,6 +90,9 @@ fn parse_args() -> Args {
 
 fn main() {
     let args = parse_args();
+    if args.cmd.ends_with("-child") || args.cmd == "c02-verify" {
+        sys::child_lifetime(900);
+    }
     session::install_panic_hook();
     let code = props::dispatch(&args);
     std::process::exit(code);
